@@ -1,5 +1,6 @@
 """C01 — the parser accepts exactly the valid scripts of its supported language."""
 from prop_common import *
+import re
 import pyref, corr_parse, gen_scripts
 
 RULE = ("exhaustive token sequences (61-token vocabulary, with and without a require-everything preamble), grammar-directed valid scripts, "
@@ -19,9 +20,20 @@ def _wf_worker(chunk):
     return run_driver(["wf " + hx(t) for t in chunk])
 
 
+_VOCAB = json.load(open(os.path.join(VERIF, "spec", "vocabulary.json")))
+VOCAB_HEX = {n.encode().hex() for k in ("control", "action", "test") for n in _VOCAB[k]}
+_NODE = re.compile(r"\(([0-9a-f]+) A\[")
+
+
 def judge(text, impl, wf):
     acc = impl.startswith("accept")
     rej = impl.startswith("reject")
+    if acc:
+        # the frozen vocabulary (spec/vocabulary.json, not derived from the code): a node whose name is not a word of the
+        # supported language is an unknown command that was accepted
+        extra = [bytes.fromhex(n).decode("latin-1") for n in set(_NODE.findall(impl)) if n not in VOCAB_HEX]
+        if extra:
+            return "unknown command accepted: %s is not a command of the supported language" % ", ".join(sorted(extra))
     if wf == "valid" and not acc:
         return "valid script rejected: " + impl[:140]
     if wf == "invalid" and not rej:
